@@ -1431,6 +1431,9 @@ func checkRoundTrips(out *simkit.Outcome, sc *pw.Scenario, res []*result, t *tre
 			}
 		}
 		if r.unpErr != nil {
+			if inClass {
+				out.Violate("C02", "rt-unpack-rejected", "rejected", fmt.Sprintf("run %d: the tree has only regular files, directories and relative in-tree links, Pack succeeded, but Unpack refuses the slug: %v", i, r.unpErr))
+			}
 			if allRel {
 				cls := "relative-links"
 				if !inClass {
